@@ -22,13 +22,15 @@ props = {
 props["C12"] = ("Exhaustive enumeration of voter sets (sizes 0..9, scattered ids), acked-index vectors and vote vectors, and of all ordered pairs of subsets of {1..4} for joint configurations; quorum.MajorityConfig/JointConfig and tracker.Committed/TallyVotes are compared case by case with the literal arithmetic of the statement. The domain is finite and enumerated completely.", "§8 C12")
 props["C13"] = ("Breadth-first closure of all configurations over ids 1..4 reachable from every single-voter configuration under every Simple/EnterJoint/LeaveJoint operation with every change sequence of length <= 2 (incl. id 0 and duplicates); every transition calls the real confchange.Changer and is compared with an independent reference model, the invariants, input preservation and the ConfState round trip. Finite and closed (exhaustive).", "§8 C13")
 props["C18"] = ("Breadth-first enumeration of all operation sequences up to a length bound over the real raftLog+MemoryStorage pair (append, conflicting follower appends from one consistent leader log per term, Ready/persist/acknowledge pipeline with stale acknowledgements, restore, commit/apply, snapshot+compaction); after every operation every first/last/term/slice/Entries query is compared with an abstract list-with-compacted-prefix.", "§8 C18")
-TECH = {"C12": "exhaustive input enumeration over a finite domain against a reference model (explicit-state, no sampling)",
+TECH = {"C19": "explicit-state exploration with every state re-executed from scratch and in a second process; key and output-hash comparison",
+        "C12": "exhaustive input enumeration over a finite domain against a reference model (explicit-state, no sampling)",
         "C13": "explicit-state breadth-first closure over the real confchange.Changer against a reference model",
         "C18": "explicit-state breadth-first search over operation sequences of the real raftLog/MemoryStorage against an abstract log"}
 props["C15"] = ("Bounded convergence: every state discovered by the BFS of small scenarios (fresh cluster, failover, snapshot pending, membership changes in flight; sync/async/PreVote+CheckQuorum) and every end state of all scripted D-DFS executions is used as a start state of a deterministic fault-free suffix (heal, stop removed nodes, report snapshot transfers, deliver everything, tick every node, rotating election-timeout draws); within 40 election timeouts there must be exactly one leader, a fresh proposal applied everywhere, equal logs/commit/applied, no auto-leave joint config, no transfer, no pending snapshot, nothing unstable. This is bounded liveness from every explored state, not 'eventually'.", "§7 C15")
 props["C16"] = ("Shadow accounting independent of the library's Inflights on every leader step: size of every produced MsgApp, number and bytes of outstanding entry-bearing appends per streaming follower, silence towards followers awaiting a snapshot, and the uncommitted-size quota at every proposal (evaluated where the library's estimate is exact); limits 0/1/tiny/unlimited, entries smaller and larger than the limits.", "§7 C16")
 props["C17"] = ("Tick-driven scripted scenarios (ElectionTick 3, per-node pinned timeouts, extra ticks as deviations) plus dueling BFS with PreVote: candidate transitions need a delivered pre-vote joint majority for that very term (or MsgTimeoutNow); MsgPreVote never changes term/vote; in-lease vote requests are ignored (harness tick count >= raft's); a CheckQuorum leader is gone within 2 election timeouts of last quorum contact.", "§7 C17")
 props["C20"] = ("Every log of every node is compared, whenever it changes, with the harness's own account of proposals: unknown payloads, multiplicities above the number of deliveries to an accepting leader, entries after ErrProposalDropped, empty entries beyond one no-op per term plus neutralisable conf proposals, auto-leave entries outside joint auto-leave configs, batch adjacency/order, bit-for-bit type and payload at the accepting leader.", "§7 C20")
+props["C19"] = ("Every explored state is computed twice by independent executions of the same path (incrementally through clones and from scratch on fresh objects) and the state key and a running hash over the exact bytes of every Ready, API result and node dump must agree; every job additionally runs in two separate worker processes whose digests over all (key, output hash) pairs must agree. Scenarios include 9-peer groups (beyond on-stack fast paths). Map iteration order cannot be enumerated; it is exercised by repetition (stated in the evidence).", "§7 C19, §15.2")
 NOT_YET = {
  "C15": "check not built yet in this revision (bounded convergence suffix planned, DESIGN §7)",
  "C16": "check not built yet in this revision (flow-control shadow accounting planned, DESIGN §7)",
